@@ -24,7 +24,9 @@ META = {
     'level_text': ("Theorems in Coq (Props/C12.v): a monomer list gives residues in input order numbered from 1 with exactly the edges "
                    "k-(k+1); every breaking of a stream of clean tokens into single-space separated non-empty lines yields the same "
                    "token list; one-letter translation is position-wise through the source's tables (all 256 characters, T), unknown "
-                   "letters are rejected, 5'/3' suffixes go on the first/last residue of nucleic acids only; a circular .ig sequence "
+                   "letters are rejected, 5'/3' suffixes go on the first/last residue of nucleic acids only; with a comment that names PROTEIN "
+                   "together with DNA or RNA every letter goes through the DNA, RNA, amino-acid table in this order (a function of the "
+                   "keywords and the letter alone); a circular .ig sequence "
                    "has the plain names, the chain edges and exactly one closing edge labelled circular; macro trees hang node k under "
                    "(k-1)/r; blocks occupy consecutive key ranges in sequence order and a connect record adds exactly the stated "
                    "edge. Tied to the code by differential runs of every reader, the -seq builder and gen_seq with the json round trip."),
@@ -33,7 +35,7 @@ META = {
                    "with probability < 1 are random and outside the statement."),
     'rule': ("cases = monomer lists (1-5 entries, counts 1-4); token streams of 1-12 arbitrary names x random line breaking and "
              "padding; letter streams of 1-30 over DNA/RNA/protein alphabets x random line breaking, .fasta and .ig (linear and "
-             "circular, incl. unknown letters); gen_seq with 1-3 macros (levels 1-4, branching 1-3) x sequences of 1-4 blocks x "
+             "circular, incl. unknown letters), fasta comments naming PROTEIN with DNA / RNA, a fixed history of plain and mixed records in one process; gen_seq with 1-3 macros (levels 1-4, branching 1-3) x sequences of 1-4 blocks x "
              "connects x terminal renamings x labels; non-trivial = >= 3 residues and (>= 2 lines or >= 2 blocks); distinct by input text"),
 }
 
